@@ -28,7 +28,7 @@ Definition len_N (s : str) : N := N.of_nat (length s).
 Definition seq_loop (step : expr -> str -> N -> res) (off : N) (labels : list (str * nat)) :=
   fix seq (es : list expr) (s1 : str) (off1 : N) (acc : list tree) : res :=
     match es with
-    | [] => Ok s1 off1 (Node off (off1 - off) [] labels (rev acc))
+    | [] => Ok s1 off1 (Node off (off1 - off) [] labels (rev_append acc []))
     | e1 :: r =>
         match step e1 s1 off1 with
         | Ok s2 off2 t => seq r s2 off2 (t :: acc)
@@ -55,7 +55,7 @@ Definition rep_loop (step : str -> N -> res) (off : N) (min : nat) :=
         | Ok s2 off2 t => loop k' s2 off2 (t :: acc)
         | Fail =>
             if Nat.leb min (length acc)
-            then Ok s1 off1 (Node off (off1 - off) [] [] (rev acc))
+            then Ok s1 off1 (Node off (off1 - off) [] [] (rev_append acc []))
             else Fail
         | OutOfFuel => OutOfFuel
         end
